@@ -90,6 +90,25 @@ def resize {α : Type} (a : Arr α) (newLen : Nat) (fill : α) : Arr α :=
       ((a.vecs.getD r []).take (localSize newLen a.ranks r)) ++
         List.replicate (localSize newLen a.ranks r - (a.vecs.getD r []).length) fill) }
 
+/-- a `for_all` callback that does more than look: for the slot `l` of rank `r` (global index `g`) it may
+modify the value it was handed by reference (`direct`) and issue asynchronous updates to the SAME array
+(`emits`: to the element being visited, to other elements of the rank, to elements of other ranks).
+What it emits must not depend on the value it sees (that value depends on how far other ranks are). -/
+structure Callback (α : Type) where
+  direct : Nat → Nat → Nat → α → α
+  emits : Nat → Nat → Nat → List (Msg α)
+
+/-- everything one `for_all(cb)` does to the array, as updates: per presented slot the callback's own
+modification through the reference (an update of exactly that element) and the updates it emits.  The
+modification through the reference is one statement of the callback, the emitted updates are executed by
+handlers (inside the callback's own `async` calls when the send buffer is small, or later): every one
+is applied exactly once, atomically, in some order — `run` over any permutation of this list. -/
+def forAllMsgs {α : Type} (a : Arr α) (cb : Callback α) : List (Msg α) :=
+  (List.range a.ranks).flatMap (fun r =>
+    (List.range (localSize a.len a.ranks r)).flatMap (fun l =>
+      let g := globalIndex a.len a.ranks r l
+      { idx := g, f := fun _ v => cb.direct r l g v } :: cb.emits r l g))
+
 /-- invariant established by `resize`: one vector per rank, of the rank's block size -/
 def WF {α : Type} (a : Arr α) : Prop :=
   a.vecs.length = a.ranks ∧ ∀ r, r < a.ranks → (a.vecs[r]?).map List.length = some (localSize a.len a.ranks r)
@@ -122,5 +141,17 @@ def Op.eval : Op → Nat → UInt64 → UInt64
   | .visit k, i, v => v * 3 + k + 7 * i.toUInt64
 
 def Op.msg (i : Nat) (op : Op) : Msg UInt64 := { idx := i, f := op.eval }
+
+/-- the harness' emitting callback (`E` scripts): operator `mk` (one commuting family), own modification
+`v ← mk c applied to v`, and per round `j < k` three updates: to the visited element, to its right
+neighbour (same rank except at a block end) and to a far element -/
+def harnessCallback (len : Nat) (mk : UInt64 → Op) (c salt k : Nat) : Callback UInt64 :=
+  { direct := fun _ _ g v => (mk (UInt64.ofNat c)).eval g v,
+    emits := fun _ _ g =>
+      (List.range k).flatMap (fun j =>
+        let x := (g * 3 + salt + j) % 97 + 1
+        [Op.msg g (mk (UInt64.ofNat x)),
+         Op.msg ((g + 1) % len) (mk (UInt64.ofNat (x + 1))),
+         Op.msg ((g * 7 + salt + j) % len) (mk (UInt64.ofNat (x + 2)))]) }
 
 end YgmVerif.ArrayOps
